@@ -61,10 +61,21 @@ pub struct Case {
 	pub seed: u64,
 	pub ibs: usize,
 	pub ops: Vec<Op>,
+	/// scheduled stream: the removal decision against a racing owner (c12_sched.rs)
+	#[serde(default)]
+	pub sched: Option<super::c12_sched::SchedCase>,
 }
 
 fn gen_case(seed: u64, tier: Tier) -> Case {
 	let mut rng = Rng::new(seed);
+	if rng.chance(0.04) {
+		return Case {
+			seed,
+			ibs: 8,
+			ops: vec![],
+			sched: Some(super::c12_sched::gen(&mut rng, tier)),
+		};
+	}
 	let ibs = *rng.pick(&[4usize, 16, 64]);
 	let unit = ibs as f64 / 8000.0;
 	let n = rng.urange(8, if tier == Tier::Quick { 50 } else { 120 });
@@ -136,7 +147,7 @@ fn gen_case(seed: u64, tier: Tier) -> Case {
 	for _ in 0..3 {
 		ops.push(Op::Callback { frames: ibs });
 	}
-	Case { seed, ibs, ops }
+	Case { seed, ibs, ops, sched: None }
 }
 
 #[derive(Clone, Copy, Debug, PartialEq)]
@@ -196,6 +207,9 @@ enum Expect {
 }
 
 pub fn run_case(case: &Case) -> CaseResult {
+	if let Some(sc) = &case.sched {
+		return super::c12_sched::run(sc);
+	}
 	let mut res = CaseResult::default();
 	let mut trace = Hasher64::new();
 	let mut beh = Hasher64::new();
@@ -805,6 +819,30 @@ impl Check for C12 {
 		run_case(&case)
 	}
 	fn shrink(&self, case: &Json) -> Vec<Json> {
+		let c: Case = serde_json::from_value(case.clone()).unwrap();
+		if let Some(sc) = &c.sched {
+			let mut out = vec![];
+			let mut push = |sc2: super::c12_sched::SchedCase| {
+				out.push(serde_json::to_value(Case { sched: Some(sc2), ..c.clone() }).unwrap());
+			};
+			for k in 0..sc.steps.len() {
+				if sc.steps[k] != 2 {
+					let mut s2 = sc.clone();
+					s2.steps.remove(k);
+					push(s2);
+				}
+			}
+			if sc.warm > 0 {
+				push(super::c12_sched::SchedCase { warm: 0, ..sc.clone() });
+			}
+			if sc.callbacks > 1 {
+				push(super::c12_sched::SchedCase { callbacks: sc.callbacks - 1, ..sc.clone() });
+			}
+			if sc.switch_prob > 0.1 {
+				push(super::c12_sched::SchedCase { switch_prob: 0.1, ..sc.clone() });
+			}
+			return out;
+		}
 		shrink_ops_array(case, "ops")
 	}
 }
